@@ -79,8 +79,12 @@ def main():
     rfd, wfd = int(sys.argv[1]), int(sys.argv[2])
     template = os.environ.get("VERIF_TEMPLATE", "plain")
     env.setup_path()
+    pre = [importlib.import_module(m) for m in filter(None, os.environ.get("VERIF_PREIMPORT", "").split(","))]
     if template != "none":
         import dateparser  # noqa: F401  (pristine template: import only)
+    for m in pre:
+        if hasattr(m, "after_import"):
+            m.after_import()
     if template == "search":
         import dateparser.search  # noqa: F401
     preload = os.environ.get("VERIF_PRELOAD", "")
